@@ -757,6 +757,64 @@ pub fn gen_fmt(seed: u64, tier: &str) -> Vec<String> {
             }
         }
     }
+    // static texts are token texts like any other: long ones are abbreviated too (lengths around the threshold, multi-byte
+    // characters and escapes around the cut)
+    let long_statics: Vec<(u32, String)> = vec![
+        (30, "<<<<<<< conflict-marker: ours\n\t".to_string()),
+        (31, "é→é→é→é→é→😀😀x".to_string()),
+        (32, "abcdefghijklmnopqrstuvw\"y".to_string()),
+        (33, "abcdefghijklmnopqrstuvwx".to_string()),
+        (34, "a".repeat(26)),
+        (35, format!("{}{}", "a".repeat(19), "😀😀")),
+    ];
+    for (k, t) in &long_statics {
+        out.lines.push(format!("syn {} {}", k, hex(t)));
+    }
+    for (bi, be) in bes.iter().enumerate() {
+        let mut toks = vec![];
+        for (k, t) in &long_statics {
+            toks.push(RefTree::Tok(*k, t.clone()));
+            // the same text interned under a kind without static text
+            toks.push(RefTree::Tok(10, t.clone()));
+        }
+        let t = RefTree::Node(0, vec![RefTree::Node(1, toks)]);
+        out.lines.push(format!("case {}", case));
+        case += 1;
+        out.next_id = 0;
+        out.lines.push(format!("cache {}", be));
+        out.lines.push("builder c0".into());
+        // by kind alone and with the text, alternately
+        fn emit(t: &RefTree, out: &mut Vec<String>, n: &mut usize) {
+            match t {
+                RefTree::Tok(k, s) => {
+                    *n += 1;
+                    if *k >= 30 && *n % 4 == 1 {
+                        out.push(format!("stok {}", k));
+                    } else {
+                        out.push(format!("tok {} {}", k, hex(s)));
+                    }
+                }
+                RefTree::Node(k, cs) => {
+                    out.push(format!("start {}", k));
+                    for c in cs {
+                        emit(c, out, n);
+                    }
+                    out.push("finish_node".into());
+                }
+            }
+        }
+        let mut n = bi;
+        emit(&t, &mut out.lines, &mut n);
+        out.lines.push("finish".into());
+        out.lines.push(format!("api {}", if bi % 2 == 0 { "plain" } else { "resolved" }));
+        let mut sim = Sim::new(&t, "g0", &mut out);
+        sim.nav(0, &["descendants_with_tokens"], &mut out);
+        for x in sim.known() {
+            for what in ["display", "debug", "debug_rec"] {
+                out.lines.push(format!("fmt e{} {}", sim.eid(x), what));
+            }
+        }
+    }
     // escapes
     let esc = RefTree::Node(
         0,
